@@ -2093,7 +2093,10 @@ impl Blockchain {
         if !self.blockring.contains_block_hash_at_block_id(id, hash) {
             self.blockring.add_block(&block);
             self.blockring.lc_pos = Some((id % ring_buffer_size) as usize);
-            self.blockring.ring[(id % ring_buffer_size) as usize].lc_pos = Some(0);
+            // the block was appended to its slot: mark ITS position, not entry 0, which is an
+            // older block when the slot already holds one (own fork block of this height, or the
+            // block 2 * genesis_period below)
+            self.blockring.ring[(id % ring_buffer_size) as usize].on_chain_reorganization(hash, true);
         } else {
             debug!("didn't add ghost block : {:?}-{:?}", id, hash.to_hex());
         }
